@@ -126,4 +126,20 @@ func (*blockquoteParser).Open
 func (*blockquoteParser).Continue
   requires text.rdOK(reader) && text.rdLive(reader) && text.plainReader(reader)
   ensures [line] lineKept(reader)
+
+// the block offset recorded in the Context is -1 or an index into the current line (set by the driver from IndentWidth)
+ghost var ctxBlockOffset() int
+iface parser.Context.BlockOffset
+  ensures result == ctxBlockOffset()
+  modifies nothing
+iface parser.Context.LastOpenedBlock
+  modifies nothing
+macro offsetOK(reader) = ctxBlockOffset() < text.rdLen(reader)
+
+func (*htmlBlockParser).Open
+  requires text.rdOK(reader) && text.rdLive(reader) && text.plainReader(reader) && offsetOK(reader)
+  ensures [line] lineKept(reader)
+func (*htmlBlockParser).Continue
+  requires text.rdOK(reader) && text.rdLive(reader) && text.plainReader(reader) && typeis(node, "*ast.HTMLBlock") && isBlockNode(node)
+  ensures [line] lineKept(reader)
 @*/
